@@ -39,6 +39,14 @@ class _disconnect(Event):
     """_disconnect Event"""
 
 
+def _closed(fd, fileno):
+    """True if the file object registered under fileno has been closed since"""
+    try:
+        return not isinstance(fd, int) and fd.fileno() != fileno
+    except ValueError:
+        return True
+
+
 class BasePoller(BaseComponent):
     channel = None
 
@@ -293,7 +301,15 @@ class Poll(BasePoller):
             self._read_ctrl()
             return
 
-        if event & self._disconnected_flag and not (event & select.POLLIN):
+        if _closed(fd, fileno):
+            # fd was closed while its number was still registered; the number may
+            # belong to another descriptor by now, so nothing here is about fd
+            self._poller.unregister(fileno)
+            del self._map[fileno]
+            if self.isReading(fd) or self.isWriting(fd):
+                self.fire(_disconnect(fd), self.getTarget(fd))
+                super().discard(fd)
+        elif event & self._disconnected_flag and not (event & select.POLLIN):
             self.fire(_disconnect(fd), self.getTarget(fd))
             self._poller.unregister(fileno)
             super().discard(fd)
